@@ -45,16 +45,21 @@ static bool should_fail() {
 		K.count("fault.alloc_fail");
 		if (A.trace) {
 			void *pcs[12]; int n = backtrace(pcs, 12);
-			std::string chain; int shown = 0;
-			for (int i = 1; i < n && shown < 2; i++) {
+			std::string chain, chain3; int shown = 0;
+			for (int i = 1; i < n && shown < 3; i++) {
 				char buf[256] = ""; if (__sanitizer_symbolize_pc) __sanitizer_symbolize_pc((char *)pcs[i] - 1, "%f", buf, sizeof buf);
 				std::string f = buf;
 				if (f.empty() || f == "??" || f.find("ksisim_") != std::string::npos || f == "KSI_malloc" || f == "KSI_calloc" || f == "should_fail") continue;
 				if (f.find("eng::") != std::string::npos) break;
-				if (shown) chain += "<";
-				chain += f; shown++;
+				if (shown) chain3 += "<";
+				chain3 += f;
+				if (shown < 2) chain = chain3;
+				shown++;
 			}
 			A.last_fail_site = chain;
+			bool seen = false;
+			for (auto &x : A.fail_sites) if (x == chain3) seen = true;
+			if (!seen) A.fail_sites.push_back(chain3);
 		}
 		if (getenv("VERIF_FAILSITE")) {
 			void *pcs[16]; int n = backtrace(pcs, 16);
